@@ -268,12 +268,174 @@ fn eval(c: &Case, escapes_attempted: &AtomicU64) -> Verdict {
     }
 }
 
+// ---------------------------------------------------------------------------------------------------------------------
+// An obstacle exactly at the path of an index entry in a non-empty destination (what `git checkout -f` replaces).
+#[derive(Serialize, Deserialize, Hash, Clone, Debug)]
+struct ObstacleCase {
+    /// 0 = regular file, 1 = executable, 2 = symlink (-> `z`)
+    entry_kind: u8,
+    /// false: entry path `a`; true: entry path `d/f` (the directory `d` exists)
+    nested: bool,
+    /// 0 dangling symlink, 1 self-loop symlink, 2 symlink to a directory inside, 3 symlink to a directory outside,
+    /// 4 symlink to a file outside, 5 stale regular file
+    obstacle: u8,
+    overwrite_existing: bool,
+    keep_going: bool,
+    threads: u8,
+}
+
+fn eval_obstacle(c: &ObstacleCase, replaced: &AtomicU64, reported: &AtomicU64) -> Verdict {
+    let io = |what: &str, e: std::io::Error| -> ! { vkit::machinery!("fixture {what}: {e}") };
+    let sandbox = vkit::scratch::Dir::new("c41o");
+    let root = sandbox.path();
+    let outside = root.join("outside");
+    let dest = root.join("dest");
+    std::fs::create_dir_all(outside.join("vd")).unwrap_or_else(|e| io("mkdir", e));
+    std::fs::write(outside.join("victim"), b"victim\n").unwrap_or_else(|e| io("write", e));
+    std::fs::write(outside.join("vd/inner"), b"inner\n").unwrap_or_else(|e| io("write", e));
+    std::fs::create_dir_all(dest.join(".git")).unwrap_or_else(|e| io("mkdir", e));
+    std::fs::write(dest.join(".git/config"), b"[core]\n").unwrap_or_else(|e| io("write", e));
+    std::fs::create_dir_all(dest.join("inside")).unwrap_or_else(|e| io("mkdir", e));
+    std::fs::write(dest.join("inside/keep"), b"keep\n").unwrap_or_else(|e| io("write", e));
+    let path = if c.nested { "d/f" } else { "a" };
+    let up = if c.nested { "../" } else { "" };
+    if c.nested {
+        std::fs::create_dir_all(dest.join("d")).unwrap_or_else(|e| io("mkdir", e));
+    }
+    let leaf = if c.nested { "f" } else { "a" };
+    let obstacle_target: Option<String> = match c.obstacle {
+        0 => Some("does-not-exist".to_string()),
+        1 => Some(leaf.to_string()),
+        2 => Some(format!("{up}inside")),
+        3 => Some(format!("{up}../outside/vd")),
+        4 => Some(format!("{up}../outside/victim")),
+        _ => None,
+    };
+    match &obstacle_target {
+        Some(t) => std::os::unix::fs::symlink(t, dest.join(path)).unwrap_or_else(|e| io("symlink", e)),
+        None => std::fs::write(dest.join(path), b"stale\n").unwrap_or_else(|e| io("write", e)),
+    }
+
+    let mut objects: HashMap<ObjectId, Vec<u8>> = HashMap::new();
+    let mut index = gix_index::State::new(gix_hash::Kind::Sha1);
+    let (data, mode, want): (Vec<u8>, gix_index::entry::Mode, (char, u32, Vec<u8>)) = match c.entry_kind {
+        0 => (PAYLOAD.to_vec(), gix_index::entry::Mode::FILE, ('f', 0, PAYLOAD.to_vec())),
+        1 => (PAYLOAD.to_vec(), gix_index::entry::Mode::FILE_EXECUTABLE, ('f', 0o100, PAYLOAD.to_vec())),
+        _ => (b"z".to_vec(), gix_index::entry::Mode::SYMLINK, ('l', 0, b"z".to_vec())),
+    };
+    for (p, d, m) in [(path, data.clone(), mode), ("z", b"zed\n".to_vec(), gix_index::entry::Mode::FILE)] {
+        let id = gix_object::compute_hash(gix_hash::Kind::Sha1, gix_object::Kind::Blob, &d);
+        objects.insert(id, d);
+        index.dangerously_push_entry(Default::default(), id, gix_index::entry::Flags::empty(), m, p.as_bytes().as_bstr());
+    }
+    index.sort_entries();
+
+    let split = |s: Snap| -> (Snap, Snap) {
+        let mut protected = Snap::new();
+        let mut worktree = Snap::new();
+        for (k, v) in s {
+            if k == "dest" {
+                continue;
+            }
+            match k.strip_prefix("dest/") {
+                Some(rest) if rest != ".git" && !rest.starts_with(".git/") => {
+                    let v = match v.0 {
+                        'd' => ('d', 0, Vec::new()),
+                        'f' => ('f', v.1 & 0o100, v.2),
+                        _ => v,
+                    };
+                    worktree.insert(rest.to_string(), v);
+                }
+                _ => {
+                    protected.insert(k, v);
+                }
+            }
+        }
+        (protected, worktree)
+    };
+    let (before, wt_before) = split(vkit::scratch::snapshot(root));
+    let opts = gix_worktree_state::checkout::Options {
+        fs: gix_fs::Capabilities::default(),
+        thread_limit: Some(c.threads as usize),
+        destination_is_initially_empty: false,
+        overwrite_existing: c.overwrite_existing,
+        keep_going: c.keep_going,
+        ..Default::default()
+    };
+    let res = gix_worktree_state::checkout(
+        &mut index,
+        dest.clone(),
+        Mem(Arc::new(objects)),
+        &gix_features::progress::Discard,
+        &gix_features::progress::Discard,
+        &AtomicBool::new(false),
+        opts,
+    );
+    let (after, wt_after) = split(vkit::scratch::snapshot(root));
+    let kind = ["file", "executable", "symlink -> z"][c.entry_kind as usize % 3];
+    let obst = match &obstacle_target {
+        Some(t) => format!("symlink -> {t}"),
+        None => "stale regular file".to_string(),
+    };
+    let desc = format!(
+        "index [{path} ({kind}), z] into a destination that has {path} = {obst} (overwrite_existing={}, keep_going={}, threads={})",
+        c.overwrite_existing, c.keep_going, c.threads
+    );
+    let res_text = match &res {
+        Ok(o) => format!(
+            "ok, errors {:?}, collisions {:?}",
+            o.errors.iter().map(|e| format!("{}: {}", e.path, e.error)).collect::<Vec<_>>(),
+            o.collisions.iter().map(|e| e.path.to_string()).collect::<Vec<_>>()
+        ),
+        Err(e) => format!("error: {e}"),
+    };
+    if let Some(d) = diff(&before, &after) {
+        let class = if d.contains("dest/.git") { "obstacle-wrote-into-git-dir" } else { "obstacle-escaped-destination" };
+        return bad(class, format!("{desc}: checkout {d} (result: {res_text})"));
+    }
+    let show = |s: &Snap| s.iter().map(|(k, v)| format!("{k}={}:{:o}:{:?}", v.0, v.1, v.2.as_bstr())).collect::<Vec<_>>().join(", ");
+    if c.overwrite_existing {
+        // like `git checkout -f`: whatever is in the way is replaced by what the index says
+        let mut expected = wt_before.clone();
+        expected.insert(path.to_string(), want);
+        expected.insert("z".to_string(), ('f', 0, b"zed\n".to_vec()));
+        let clean = matches!(&res, Ok(o) if o.errors.is_empty() && o.collisions.is_empty());
+        if !clean {
+            return bad("obstacle-not-replaced", format!("{desc}: checkout must replace the obstacle, but the result is {res_text}; worktree [{}]", show(&wt_after)));
+        }
+        if wt_after != expected {
+            return bad("obstacle-not-replaced", format!("{desc}: worktree is [{}], expected [{}] (result: {res_text})", show(&wt_after), show(&expected)));
+        }
+        replaced.fetch_add(1, Ordering::Relaxed);
+        return ok(format!("replaced-{}", if obstacle_target.is_some() { "symlink" } else { "file" }));
+    }
+    // without overwrite_existing a symlink in the way must stay what it is and be reported
+    if obstacle_target.is_some() {
+        if wt_after.get(path) != wt_before.get(path) {
+            return bad("obstacle-changed-without-overwrite", format!("{desc}: {path} changed: worktree [{}] (result: {res_text})", show(&wt_after)));
+        }
+        let is_reported = match &res {
+            Ok(o) => o.collisions.iter().any(|x| x.path == path) || o.errors.iter().any(|x| x.path == path),
+            Err(_) => true,
+        };
+        if !is_reported {
+            return bad("obstacle-not-reported", format!("{desc}: {path} was left alone but neither reported as collision nor as error (result: {res_text})"));
+        }
+        reported.fetch_add(1, Ordering::Relaxed);
+        return ok(if res.is_ok() { "kept-and-reported" } else { "kept-and-failed" });
+    }
+    ok_trivial(format!("stale-file-without-overwrite-{}", if wt_after.get(path) == wt_before.get(path) { "kept" } else { "rewritten" }))
+}
+
 pub fn run(run: &'static Run) {
     run.rule(
         "index = every set of <=2 (quick) / <=3 (thorough) entries with distinct paths out of 33 templates: benign {a, b(exe), d/f, A, s->d, d/up->../a, dangling link}; \
          symlink `l` -> {d, .., ../outside/vd, <abs outside>/vd, .git} combined with entries l/f, l/config, l/sub/f, l/ln, l/ln2, l/ln3, l/sub/ln (symlinks), l/ln/c that traverse it, plus (both tiers) every hostile symlink with every set of 2..3 (quick) / 2..4 (thorough) entries below it; direct attacks {.git/config, .git/hooks/x, .GIT/config, git~1/config, .git as symlink, \
          ../outside/escape, d/../../outside/escape, <abs outside>/escape}; D/F conflicts {a + a/b, d/f + d as symlink to outside, b + b/x}; symlinked .gitmodules; \
          x destination {empty, pre-populated with symlinks a,d,l pointing outside and a stale file} x overwrite_existing x keep_going x (thread_limit, validation) in {(1,all),(1,minimal),(2,all)} (quick: family only into the empty destination, other indices without `minimal`); \
+         sub-check obstacle (both tiers): one index entry {file, executable, symlink} at `a` or `d/f` plus a benign `z`, into a non-empty destination that holds at exactly that path \
+         {dangling symlink, self-loop symlink, symlink to an inside directory, symlink to an outside directory, symlink to an outside file, stale regular file} x overwrite_existing x keep_going x thread_limit {1,2}: \
+         with overwrite_existing the obstacle is replaced by the index content/mode/target without errors or collisions (what `git checkout -f` does), without it a symlink obstacle stays untouched and is reported; \
          oracle: full snapshot (paths, types, modes, contents, link targets) of the sandbox outside the destination and of dest/.git is identical before and after; benign indices into an empty destination are reproduced exactly (content, exec bit, link target, no errors); \
          non-trivial = the index is non-empty",
     );
@@ -341,4 +503,28 @@ pub fn run(run: &'static Run) {
         |c: &Case| eval(c, &attempted),
     );
     run.require("hostile or pre-populated checkouts were explored", attempted.load(Ordering::Relaxed) > 0);
+
+    let (replaced, reported) = (AtomicU64::new(0), AtomicU64::new(0));
+    run.sub_with(
+        "obstacle",
+        vkit::Opts::default().chunk(512).watchdog(60.0),
+        |emit| {
+            for obstacle in 0..6u8 {
+                for entry_kind in 0..3u8 {
+                    for nested in [false, true] {
+                        for overwrite_existing in [true, false] {
+                            for keep_going in [false, true] {
+                                for threads in [1u8, 2] {
+                                    emit(ObstacleCase { entry_kind, nested, obstacle, overwrite_existing, keep_going, threads });
+                                }
+                            }
+                        }
+                    }
+                }
+            }
+        },
+        |c: &ObstacleCase| eval_obstacle(c, &replaced, &reported),
+    );
+    run.require("obstacles were replaced with overwrite_existing", replaced.load(Ordering::Relaxed) > 0);
+    run.require("symlink obstacles were kept and reported without overwrite_existing", reported.load(Ordering::Relaxed) > 0);
 }
